@@ -52,6 +52,7 @@ class Registry:
         self.lemmas: dict[str, dict] = {}
         self.consts: dict[str, object] = {}
         self.ghost: dict[str, dict[str, str]] = {}
+        self.c_contracts: dict[str, dict] = {}
 
     # ---- declaration API used by sidecar files
     def contract(self, key, **kw):
@@ -73,6 +74,11 @@ class Registry:
 
     def invariant(self, cls, clauses):
         self.invariants.setdefault(cls, []).extend(clauses)
+
+    def c_contract(self, key, **kw):
+        """contract of a C function: key '<file>::<function>', setup(m) builds the symbolic pre-state and returns the
+        argument values, post(m, st, outcome) returns [(name, goal, note)] (checked by engine/cwp)."""
+        self.c_contracts[key] = kw
 
     def lemma(self, name, **kw):
         self.lemmas[name] = kw
